@@ -67,3 +67,272 @@ def emit_all(emit) -> None:
         [(f.name, repr(getattr(probe, f.name))) for f in dataclasses.fields(Chop)],
         "repr of the field values of Chop() after __post_init__ (no arguments)",
     )
+
+    # --- round 6: the bodies of the relations (and of the simple validators, Chop.invert) as expression trees.
+    # Python `ast` on the current source -> prefix token lists (grammar: lean/CBV/Model/C03Trans.lean, `Stmt.enc`).
+    # Anything outside the grammar raises: the tables are not generated and the run is red.
+    bodies = []
+    for name, fn in inspect.getmembers(relations, inspect.isfunction):
+        if name.startswith("get_") and name.count("__") == 2:
+            o, a, b = name[4:].split("__")
+            fdef = ast.parse(textwrap.dedent(inspect.getsource(fn))).body[0]
+            params = [x.arg for x in fdef.args.args]
+            if params != ["length", a, b]:
+                raise TranslateError(f"{name}: parameters {params} are not (length, {a}, {b})")
+            bodies.append(((o, a, b), _Translator(name, params).body(fdef.body)))
+    emit(
+        "c03RelBodies",
+        "List ((String × String × String) × List String)",
+        bodies,
+        "per relation: its body (guards, branches, expressions, numeric library calls) as prefix tokens of the statement tree",
+    )
+    vbodies = []
+    for name in ["_validate_length", "_validate_start_end_size", "_validate_c2c_expansion", "_validate_total_expansion"]:
+        fdef = ast.parse(textwrap.dedent(inspect.getsource(getattr(relations, name)))).body[0]
+        params = [x.arg for x in fdef.args.args]
+        vbodies.append((name, params, _Translator(name, params).body(fdef.body, allow_none=True)))
+    emit(
+        "c03ValidatorBodies",
+        "List (String × List String × List String)",
+        vbodies,
+        "the simple validators: name, parameters, body as prefix tokens (`_validate_count` evaluates a string: its condition is in the call)",
+    )
+
+    # Chop.invert: the statements in order (tuple swap, `if self.x is not None: self.y = 1 / self.z`, if/elif on a string field)
+    idef = ast.parse(textwrap.dedent(inspect.getsource(Chop.invert))).body[0]
+    emit(
+        "c03InvertBody",
+        "List String",
+        _translate_method(idef),
+        "Chop.invert: its statements in order as prefix tokens (grammar: lean/CBV/Model/C03Trans.lean, `IStmt.enc`)",
+    )
+
+
+class TranslateError(Exception):
+    pass
+
+
+class _Translator:
+    """Python statements of grading/relations.py -> prefix tokens.  No evaluation, no defaults: unknown syntax raises."""
+
+    BIN = {"Add": "+", "Sub": "-", "Mult": "*", "Div": "/", "Pow": "**"}
+    CMP = {"Lt": "<", "LtE": "<=", "Gt": ">", "GtE": ">=", "Eq": "==", "NotEq": "!="}
+
+    def __init__(self, where, params):
+        self.where = where
+        self.names = set(params)   # parameters and locals assigned so far
+        self.funcs = set()         # local function definitions
+
+    def fail(self, node, why):
+        import ast
+
+        raise TranslateError(f"{self.where}: line {getattr(node, 'lineno', '?')}: {why}: {ast.unparse(node)[:120]}")
+
+    @staticmethod
+    def dotted(node):
+        import ast
+
+        parts = []
+        while isinstance(node, ast.Attribute):
+            parts.append(node.attr)
+            node = node.value
+        if isinstance(node, ast.Name):
+            parts.append(node.id)
+            return ".".join(reversed(parts))
+        return None
+
+    def expr(self, e):
+        import ast
+
+        if isinstance(e, ast.Name):
+            if e.id == "R_MAX":
+                return ["R_MAX"]
+            if e.id not in self.names:
+                self.fail(e, "unknown name")
+            return ["var", e.id]
+        if isinstance(e, ast.Attribute):
+            if self.dotted(e) == "constants.TOL":
+                return ["TOL"]
+            self.fail(e, "unsupported attribute")
+        if isinstance(e, ast.Constant):
+            if type(e.value) is int and 0 <= e.value <= 9:
+                return ["lit", str(e.value)]
+            self.fail(e, "unsupported constant")
+        if isinstance(e, ast.BinOp):
+            op = self.BIN.get(type(e.op).__name__)
+            if op is None:
+                self.fail(e, "unsupported operator")
+            return [op] + self.expr(e.left) + self.expr(e.right)
+        if isinstance(e, ast.Call):
+            if e.keywords:
+                self.fail(e, "keyword arguments")
+            fn = self.dotted(e.func)
+            one = {"abs": "abs", "np.log": "log", "int": "int", "np.ceil": "ceil"}
+            if fn in one and len(e.args) == 1:
+                return [one[fn]] + self.expr(e.args[0])
+            if fn == "scipy.optimize.brentq" and len(e.args) == 3 and isinstance(e.args[0], ast.Name):
+                if e.args[0].id not in self.funcs:
+                    self.fail(e, "brentq on an unknown function")
+                return ["brentq", e.args[0].id] + self.expr(e.args[1]) + self.expr(e.args[2])
+            if fn in self.funcs and len(e.args) == 1:
+                return ["call", fn] + self.expr(e.args[0])
+            self.fail(e, "unsupported call")
+        self.fail(e, "unsupported expression")
+
+    def cond(self, c):
+        import ast
+
+        if isinstance(c, ast.Compare):
+            ops = [self.CMP.get(type(o).__name__) for o in c.ops]
+            if None in ops:
+                self.fail(c, "unsupported comparison")
+            terms = [c.left] + list(c.comparators)
+            if len(ops) == 1:
+                return ["cmp", ops[0]] + self.expr(terms[0]) + self.expr(terms[1])
+            if len(ops) == 2:
+                return (["and", "cmp", ops[0]] + self.expr(terms[0]) + self.expr(terms[1])
+                        + ["cmp", ops[1]] + self.expr(terms[1]) + self.expr(terms[2]))
+            self.fail(c, "comparison chain too long")
+        if isinstance(c, ast.UnaryOp) and isinstance(c.op, ast.Not):
+            return ["not"] + self.cond(c.operand)
+        if isinstance(c, ast.Call) and self.dotted(c.func) == "np.isnan" and len(c.args) == 1 and not c.keywords:
+            return ["isnan"] + self.expr(c.args[0])
+        self.fail(c, "unsupported condition")
+
+    def assigns(self, stmts):
+        import ast
+
+        out = [str(len(stmts))]
+        new = []
+        for s in stmts:
+            if not (isinstance(s, ast.Assign) and len(s.targets) == 1 and isinstance(s.targets[0], ast.Name)):
+                self.fail(s, "branch of an if/else is not a plain assignment")
+            out += [s.targets[0].id] + self.expr(s.value)
+            new.append(s.targets[0].id)
+        return out, new
+
+    def stmt(self, s):
+        import ast
+
+        if isinstance(s, ast.Expr) and isinstance(s.value, ast.Call):
+            fn = self.dotted(s.value.func)
+            if fn and fn.startswith("_validate_") and not s.value.keywords:
+                args = []
+                for a in s.value.args:
+                    if isinstance(a, ast.Name) and a.id in self.names:
+                        args.append(a.id)
+                    elif isinstance(a, ast.Constant) and isinstance(a.value, str):
+                        args.append(a.value)
+                    else:
+                        self.fail(s, "unsupported validator argument")
+                return ["validate", fn, str(len(args))] + args
+            self.fail(s, "unsupported call statement")
+        if isinstance(s, ast.If):
+            test = self.cond(s.test)
+            if len(s.body) == 1 and isinstance(s.body[0], ast.Raise) and not s.orelse:
+                return ["raiseif"] + test
+            if len(s.body) == 1 and isinstance(s.body[0], ast.Return) and not s.orelse and s.body[0].value is not None:
+                return ["retif"] + test + self.expr(s.body[0].value)
+            if s.orelse and len(s.body) <= 9 and len(s.orelse) <= 9:
+                a, na = self.assigns(s.body)
+                b, nb = self.assigns(s.orelse)
+                if sorted(na) != sorted(nb):
+                    self.fail(s, "the branches assign different names")
+                self.names |= set(na)
+                return ["ite"] + test + a + b
+            self.fail(s, "unsupported if statement")
+        if isinstance(s, ast.Assign) and len(s.targets) == 1 and isinstance(s.targets[0], ast.Name):
+            out = ["assign", s.targets[0].id] + self.expr(s.value)
+            self.names.add(s.targets[0].id)
+            return out
+        if isinstance(s, ast.Return) and s.value is not None:
+            return ["ret"] + self.expr(s.value)
+        if isinstance(s, ast.FunctionDef):
+            if (len(s.args.args) == 1 and not s.args.defaults and not s.decorator_list and len(s.body) == 1
+                    and isinstance(s.body[0], ast.Return) and s.body[0].value is not None):
+                p = s.args.args[0].arg
+                inner = _Translator(self.where + "." + s.name, self.names | {p})
+                inner.funcs = set(self.funcs)
+                out = ["def", s.name, p] + inner.expr(s.body[0].value)
+                self.funcs.add(s.name)
+                return out
+            self.fail(s, "unsupported local function")
+        self.fail(s, "unsupported statement")
+
+    def body(self, stmts, allow_none=False):
+        import ast
+
+        stmts = list(stmts)
+        if stmts and isinstance(stmts[0], ast.Expr) and isinstance(stmts[0].value, ast.Constant) and isinstance(stmts[0].value.value, str):
+            stmts = stmts[1:]  # docstring
+        out = []
+        for s in stmts:
+            out += self.stmt(s)
+        if not allow_none and not (stmts and isinstance(stmts[-1], ast.Return)):
+            raise TranslateError(f"{self.where}: the body does not end with a return")
+        return out
+
+
+def _translate_method(fdef):
+    """Statements of a method that only moves attributes of `self` around (Chop.invert)."""
+    import ast
+
+    def fail(node, why):
+        raise TranslateError(f"{fdef.name}: line {getattr(node, 'lineno', '?')}: {why}: {ast.unparse(node)[:120]}")
+
+    def attr(e):
+        if isinstance(e, ast.Attribute) and isinstance(e.value, ast.Name) and e.value.id == "self":
+            return e.attr
+        fail(e, "not an attribute of self")
+
+    if [a.arg for a in fdef.args.args] != ["self"]:
+        fail(fdef, "unexpected parameters")
+    stmts = list(fdef.body)
+    if stmts and isinstance(stmts[0], ast.Expr) and isinstance(stmts[0].value, ast.Constant) and isinstance(stmts[0].value.value, str):
+        stmts = stmts[1:]
+    out = []
+    for s in stmts:
+        if (isinstance(s, ast.Assign) and len(s.targets) == 1 and isinstance(s.targets[0], ast.Tuple)
+                and isinstance(s.value, ast.Tuple) and len(s.targets[0].elts) == 2 and len(s.value.elts) == 2):
+            out += ["assign2"] + [attr(x) for x in s.targets[0].elts] + [attr(x) for x in s.value.elts]
+            continue
+        if isinstance(s, ast.If):
+            t = s.test
+            if (isinstance(t, ast.Compare) and len(t.ops) == 1 and isinstance(t.ops[0], ast.IsNot)
+                    and isinstance(t.comparators[0], ast.Constant) and t.comparators[0].value is None
+                    and not s.orelse and len(s.body) == 1 and isinstance(s.body[0], ast.Assign)
+                    and len(s.body[0].targets) == 1):
+                v = s.body[0].value
+                if (isinstance(v, ast.BinOp) and isinstance(v.op, ast.Div) and isinstance(v.left, ast.Constant)
+                        and type(v.left.value) is int and v.left.value == 1):
+                    out += ["ifset", attr(t.left), "recip", attr(s.body[0].targets[0]), attr(v.right)]
+                    continue
+                fail(s, "unsupported assignment under `is not None`")
+            # if / elif chain: self.f == "const" -> self.g = "const"
+            arms = []
+            field = None
+            node = s
+            while True:
+                t = node.test
+                if not (isinstance(t, ast.Compare) and len(t.ops) == 1 and isinstance(t.ops[0], ast.Eq)
+                        and isinstance(t.comparators[0], ast.Constant) and isinstance(t.comparators[0].value, str)
+                        and len(node.body) == 1 and isinstance(node.body[0], ast.Assign) and len(node.body[0].targets) == 1
+                        and isinstance(node.body[0].value, ast.Constant) and isinstance(node.body[0].value.value, str)):
+                    fail(node, "unsupported if statement")
+                f = attr(t.left)
+                if field not in (None, f):
+                    fail(node, "if/elif chain tests different fields")
+                field = f
+                arms += [t.comparators[0].value, attr(node.body[0].targets[0]), node.body[0].value.value]
+                if not node.orelse:
+                    break
+                if len(node.orelse) == 1 and isinstance(node.orelse[0], ast.If):
+                    node = node.orelse[0]
+                    continue
+                fail(node, "unsupported else branch")
+            if len(arms) // 3 > 9:
+                fail(s, "too many arms")
+            out += ["case", field, str(len(arms) // 3)] + arms
+            continue
+        fail(s, "unsupported statement")
+    return out
